@@ -532,6 +532,10 @@ nfa, with no epsilon transition
         """
         enfa = self.copy()
         trash = State("TrashNode")
+        idx = 0
+        while trash in self._states:
+            trash = State("TrashNode" + str(idx))
+            idx += 1
         enfa.add_final_state(trash)
         for state in self._states:
             if state in self._final_states:
